@@ -12,9 +12,15 @@ def frame(flag, payload):
     return bytes([flag]) + struct.pack('>I', len(payload)) + bytes(payload)
 
 
-def rand_trailers(rnd):
+def rand_trailers(rnd, any_map=False):
     names = ['grpc-status', 'grpc-message', 'x-a', 'x-a', 'x-b-bin', 'k']
     out = [{'n': 'grpc-status', 'v': list(str(rnd.randint(0, 16)).encode())}]
+    if any_map:      # "any trailers": the inner service need not be tonic - an empty map, or one without grpc-status
+        r = rnd.random()
+        if r < 0.12:
+            return []
+        if r < 0.24:
+            out = []
     for _ in range(rnd.randint(0, 4)):
         n = rnd.choice(names[1:])
         v = rnd.choice([b'', b'ok', b'a:b', b'http://x:80/y', b'a b  c', b'x: y', b'AAEC', b'100%25', b'::'])
@@ -57,7 +63,7 @@ def gen(seed, tier, which):
             fb = b''.join(frame(0, m) for m in msgs)
             accept = rnd.choice(WEB + ['none', 'text/html'])
             out.append({'kind': 'srv_resp', 'class': 'srv_resp', 'method': 'POST', 'version': rnd.choice(['HTTP/1.1', 'HTTP/2.0']), 'ctype': rnd.choice(WEB),
-                        'accept': accept, 'text': accept in TEXT, 'chunks_req': [], 'chunks_resp': cut(rnd, fb), 'trailers': rand_trailers(rnd),
+                        'accept': accept, 'text': accept in TEXT, 'chunks_req': [], 'chunks_resp': cut(rnd, fb), 'trailers': rand_trailers(rnd, any_map=True),
                         'inner_status': 200, 'frames_bytes': list(fb)})
         for _ in range(n):
             payload = bytes(rnd.randrange(256) for _ in range(rnd.choice([0, 1, 2, 3, 4, 5, 17, 60, 200])))
@@ -122,6 +128,11 @@ def gen(seed, tier, which):
         payload = bytes(rnd.randrange(256) for _ in range(rnd.choice([0, 5, 64])))
         out.append({'kind': 'cli_req', 'class': 'cli_req', 'version': rnd.choice(['HTTP/2.0', 'HTTP/1.1']), 'chunks_req': cut(rnd, payload), 'chunks_resp': [], 'payload': list(payload),
                     'frames_bytes': [], 'trailers': []})
+    # the client layer is generic over the transport's Buf: a third of the response bodies deliver their data frames as
+    # non-contiguous segments of 1, 3 or 4 bytes (chunk() is then only the first segment of a frame)
+    for k, st in enumerate(out):
+        if st.get('kind') == 'cli_resp':
+            st['seg'] = (0, 0, 1, 0, 0, 3, 0, 0, 4)[k % 9]
     return out
 
 
